@@ -36,6 +36,10 @@ var regressCases = []regressCase{
 	{"text-after-ret", "li a0, 1\nlw t0, 0(s0)\nret\nli a0, 2\nadd t0, t0, t0\nsw a0, 4(s0)\n", map[string]int32{"s0": 128}},
 	{"stale-snoop-command-after-flush", "addi t2, t4, -4\nlw t4, 0(s2)\nli a1, -30\nlw a2, 1476(zero)\naddi t4, zero, 36\naddi t4, zero, 81\naddi t4, zero, 77\naddi t4, zero, 70\naddi t4, zero, 63\nlw a2, 1280(zero)\naddi t4, zero, 28\naddi t4, zero, 91\naddi t4, zero, 41\naddi t4, zero, 37\naddi t4, zero, 38\naddi t4, zero, 80\nlw a2, 1536(zero)\nlw a0, 0(s0)\nbltu a0, a1, L1\naddi t0, t4, 47\nsub t4, t1, t3\nlw t3, 8(s2)\nL1:\nsw t0, 64(s2)\nsw t3, 76(s2)\nsw t4, 80(s2)\nsw a0, 84(s2)\nlw a2, 0(s1)\nlw t4, 4(s2)\nret\n", map[string]int32{"a0": -369, "s0": 256, "s1": 536, "s2": 1024, "t0": 820, "t1": 368, "t2": -56, "t3": -426, "t4": -295}},
 	{"two-cores-evict-one-L3-line", "li s0, 4872\nli s3, 50\nL1:\nsh a0, 4, s0\naddi s0, s0, 68\naddi s3, s3, -1\nbnez s3, L1\nsh a0, 4, s1\nli s0, 4628\nsb a0, -8(s0)\nli s1, 9056\nlb t0, 10(s1)\nxor a0, a0, t0\nli s2, 11192\nsw a0, -4(s2)\nli s0, 1420\nsh a0, -10, s0\nli s0, 2200\nsw a0, -28(s0)\nlw t2, 0(s0)\n", map[string]int32{"s0": 10552, "s1": 8856, "s2": 6500, "t0": 1, "t1": 88, "t3": 372, "t4": 8192}},
+	{"stale-forward-wired-on-full-bus", "sh t1, 6, s0\nsh zero, -2, s2\nli t3, -82\nslti t3, t0, 1097\nsub t1, a0, t2\nlw t3, -28(s0)\nsw t3, -24(s1)\n", map[string]int32{"t0": 33554432, "t1": 967, "t2": 20561, "s0": 1768, "s1": 2964, "a0": -2147483648, "s2": 2960, "t3": 1, "t4": -1}},
+	{"forward-from-older-of-two-writers", "li t3, 195\nandi t3, t0, -3\nsh t3, -58, s1\n", map[string]int32{"t0": -116, "s1": 256}},
+	{"slow-older-writer-lands-last", "lw t1, 28(s1)\naddi t1, t0, 22\nadd t1, t1, t1\n", map[string]int32{"t0": 20, "s1": 256}},
+	{"parked-reader-then-younger-writer", "lw t5, 0(zero)\nadd t6, t5, t1\naddi t0, zero, 3\nadd t1, t0, zero\n", map[string]int32{"t1": 100}},
 	{"F3-load-add-ret", "lw t0, 0(s0)\nlw t1, 64(s0)\nadd t2, t0, t1\nret\n", map[string]int32{"s0": 128}},
 }
 
